@@ -34,6 +34,7 @@ import numpy as np
 import core
 
 LEAN_MODULE = "Optyx.Props.C14"
+EXTRA_MODULES = ["Optyx.Props.PinsC14"]   # transcription anchors (harness/source_pins.py)
 THEOREMS = [
     "Optyx.Props.C14.cache_transparent",
     "Optyx.Props.C14.cache_transparent_run",
@@ -44,6 +45,7 @@ THEOREMS = [
     "Optyx.Props.C14.compile_cache_param_collision",
     "Optyx.Props.C14.gradient_cached_transparent",
     "Optyx.Props.C14.compile_cached_transparent",
+    "Optyx.Props.PinsC14.anchors",
 ]
 ASSUMPTIONS = [
     "object identity is modelled by structural equality including object ids (coarser than `is`: the theorems hold for "
